@@ -61,7 +61,8 @@ def boundary_features(rng, region, n, labels, count):
             x = rng.randrange(a, b); parts = [[x, x + 1, st]]
         if not parts or any(p[0] >= p[1] for p in parts):
             continue
-        out.append({"type": rng.choice(annot.FTYPES), "q": labels[0], "parts": parts, "shape": "boundary:" + kind})
+        typ = "source" if rng.random() < 0.12 else rng.choice(annot.FTYPES)
+        out.append({"type": typ, "q": labels[0], "parts": parts, "shape": "boundary:" + kind + (":source" if typ == "source" else "")})
         labels[0] += 1
     return out
 
@@ -82,10 +83,14 @@ def gen_case(ctx, enz, q):
             feats.append(f)
         rng.shuffle(feats)
         i = len(elements)
-        elements.append({"kind": kind, "cls": gens.generic_spec(kind, enz),
-                         "rec": {"seq": elem["seq"], "id": "%s%d" % (kind[0], i), "name": "n%d" % i, "desc": "d",
-                                 "features": feats, "refs": None},
-                         "rot": gens.pick_origin(rng, elem) if rng.random() < 0.85 else 0,
+        rot = gens.pick_origin(rng, elem) if rng.random() < 0.85 else 0
+        spec = {"seq": elem["seq"], "id": "%s%d" % (kind[0], i), "name": "n%d" % i, "desc": "d", "features": feats, "refs": None}
+        prerot = bool(rot) and rng.random() < 0.4
+        if prerot:
+            # the record is handed over already read from the other origin (features over the origin written as joins
+            # or in the extended form), instead of being rotated by the implementation's own >>
+            spec = annot.prerotate(spec, rot, rng)
+        elements.append({"kind": kind, "cls": gens.generic_spec(kind, enz), "rec": spec, "rot": rot, "prerot": prerot,
                          "region": list(region)})
     order = list(range(q))
     if rng.random() < 0.3:
@@ -102,6 +107,7 @@ def gen_case(ctx, enz, q):
                 order.append(i)
     rng.shuffle(order)
     return {"enz": enz["name"], "q": q, "elements": elements, "order": order, "expected": ch["expected"],
+            "second": rng.choice([None, None, "add", "drop"]),
             "id": rng.choice(["prod", "pX_1", "assembly", "A" * 15]), "name": rng.choice(["prod", "name1"])}
 
 
@@ -126,22 +132,10 @@ def _denote(seq, parts):
     return out
 
 
-def run_annot(case):
-    """assemble, dump inputs as given to the entities and the product; evaluate the C08 / C09 oracles"""
-    import io
-    import Bio.SeqIO
-    from harness import implutil
-    ents = annot.build(case["elements"])
-    q = case["q"]
-    inputs = [recutil.dump_record(e.record) for e in ents]
-    obs, prod = implutil.observe_assembly(ents[q], [ents[i] for i in case["order"]], id=case["id"], name=case["name"])
-    if prod is None:
-        return {"obs": obs, "inputs": inputs}
-    view = annot.product_view(prod)
-    out = {"obs": {"out": "product"}, "inputs": inputs, "product": view, "violations": []}
-    V = out["violations"]
+def c08_oracle(case, inputs, view):
+    """label-based denotation oracle: product features versus the features of the inputs as they are now"""
+    V = []
     pseq = view["seq"]
-    # ---- C08: label-based denotation
     src = {}
     for ei, (e, inp) in enumerate(zip(case["elements"], inputs)):
         n = len(inp["seq"])
@@ -179,6 +173,49 @@ def run_annot(case):
             V.append({"signature": "C08:inherited-feature-missing",
                       "what": "feature L%d %s (%s) lies inside the retained fragment of element %d but appears %d times in the product"
                               % (lab, s["f"]["parts"], s["f"].get("type"), s["elem"], seen.get(lab, 0))})
+    return V
+
+
+def run_annot(case):
+    """assemble, dump inputs as given to the entities and the product; evaluate the C08 / C09 oracles"""
+    import io
+    import Bio.SeqIO
+    from harness import implutil
+    ents = annot.build(case["elements"])
+    q = case["q"]
+    inputs = [recutil.dump_record(e.record) for e in ents]
+    obs, prod = implutil.observe_assembly(ents[q], [ents[i] for i in case["order"]], id=case["id"], name=case["name"])
+    if prod is None:
+        return {"obs": obs, "inputs": inputs}
+    view = annot.product_view(prod)
+    out = {"obs": {"out": "product"}, "inputs": inputs, "product": view, "violations": []}
+    V = out["violations"]
+    pseq = view["seq"]
+    V.extend(c08_oracle(case, inputs, view))
+    if case.get("second"):
+        # the same entities again after their records were annotated further in place: the statement is about the
+        # feature tables the records carry when assemble() is called
+        from Bio.SeqFeature import SeqFeature, FeatureLocation
+        lab = 5000
+        for ei, e in enumerate(case["elements"]):
+            rec = ents[ei].record
+            n = len(rec.seq)
+            a, b = e["region"]
+            rot = e.get("rot", 0)
+            if b - a >= 2:
+                x = (a + rot) % n
+                if x + 2 <= n:
+                    rec.features.append(SeqFeature(FeatureLocation(x, x + 2, 1), type="misc_feature",
+                                                   qualifiers={"label": ["L%d" % (lab + ei)]}))
+            if rec.features and case["second"] == "drop":
+                del rec.features[0]
+        inputs2 = [recutil.dump_record(e.record) for e in ents]
+        obs2, prod2 = implutil.observe_assembly(ents[q], [ents[i] for i in case["order"]], id=case["id"], name=case["name"])
+        if prod2 is None:
+            V.append({"signature": "C08:second-call-fails", "what": "second assembly of the same entities ends with %s" % obs2})
+        else:
+            for v in c08_oracle(case, inputs2, annot.product_view(prod2)):
+                V.append(dict(v, signature=v["signature"] + ":after-annotating-in-place"))
     # ---- C09: provenance, metadata, GenBank round trip
     W = out["violations9"] = []
     n = len(pseq)
@@ -275,7 +312,11 @@ def run_common(ctx, prop, vkey):
     for i, (c, r) in enumerate(zip(cases, res)):
         ctx.evaluations += 1
         ctx.count("chain:%d" % c["q"])
+        if c.get("second"):
+            ctx.count("history:second-call-after-annotating-in-place:" + c["second"])
         for e in c["elements"]:
+            if e.get("prerot"):
+                ctx.count("input:origin-moved-by-the-harness")
             for f in e["rec"]["features"]:
                 ctx.count("shape:" + f.get("shape", "?"))
         if r["obs"]["out"] != "product":
